@@ -64,7 +64,8 @@ Definition set_lf (st : bstate) (l : nat) (f : lfile) : bstate :=
   {| b_items := b_items st; b_sets := b_sets st; b_phys := b_phys st; b_lfs := upd (b_lfs st) l f |}.
 
 (* EFLRSetsDict.get_or_make_set on the physical registry *)
-Definition get_or_make_set (st : bstate) (ty : nat) (n : oname) : bstate * nat :=
+Definition get_or_make_set (st : bstate) (ty : nat) (n0 : oname) : bstate * nat :=
+  let n := match n0 with Some [] => None | _ => n0 end in       (* an empty set name is no set name *)
   match reg_find (b_phys st) ty n with
   | Some sid => (st, sid)
   | None =>
@@ -74,7 +75,8 @@ Definition get_or_make_set (st : bstate) (ty : nat) (n : oname) : bstate * nat :
   end.
 
 (* EFLRSetsDict.try_add_set on a logical file's registry *)
-Definition try_add_set (f : lfile) (ty : nat) (n : oname) (sid : nat) : lfile :=
+Definition try_add_set (f : lfile) (ty : nat) (n0 : oname) (sid : nat) : lfile :=
+  let n := match n0 with Some [] => None | _ => n0 end in       (* the set's own (normalised) name *)
   match reg_find (l_reg f) ty n with
   | Some _ => f
   | None => {| l_hid := l_hid f; l_seq := l_seq f; l_ident := l_ident f; l_fh_origin := l_fh_origin f;
